@@ -11,8 +11,9 @@
 //!   `s` QE_VERIF_FORCE_STREAMING_SCAN=1 (filtered scans stream, predicate applied by the Parquet decoder)
 //!   `n` QE_VERIF_NO_PRESCAN=1 (tables used twice are scanned twice)
 //!   `sn` both.  `QE_IPC_CACHE=0` everywhere (C20 owns the sidecars).
-//! Case = sqlgen case (mode meta) + {"kind":"sql","files":f,"rg":g}.  Impl {"runs":{"<layout>@<variant>": outcome}}
-//! (memory layouts only under `d`: they never touch the hooks).
+//! Case = sqlgen case (mode meta) + {"kind":"sql","files":f,"rg":g}.  Impl {"runs":{"<layout>@<variant>": outcome},
+//! "ops":{"<variant>":[operator names of the physical plan over the pq<f>x<g> layout]}} (memory layouts only under `d`: they
+//! never touch the hooks).  `ops` is evidence only (which path the planner really chose: StreamingParquetScan, MorselAggregate, …).
 use crate::common::*;
 use crate::fams::fam_c07::{spawn_kid_with, Kid};
 use crate::fams::fam_sql::sqlgen::catalog::{gen_catalog, CatOpts, Catalog};
@@ -41,6 +42,39 @@ fn canon(v: Value, ordered: bool) -> Value {
     }
 }
 
+/// operator names of the physical plan of `sql` over the Parquet layout (evidence of the path taken; never judged)
+fn plan_ops(cat: &Catalog, sql: &str, files: usize, rg: usize) -> Vec<String> {
+    use query_engine::physical::PhysicalOperator;
+    let dir = crate::fams::fam_sql::sqlgen::exec::scratch_dir();
+    let res = std::panic::catch_unwind(std::panic::AssertUnwindSafe(|| -> Option<Vec<String>> {
+        let mut ctx = query_engine::ExecutionContext::new();
+        for t in &cat.tables {
+            let d = dir.join(&t.name);
+            std::fs::create_dir_all(&d).ok()?;
+            let nf = files.max(1); let n = t.rows.len();
+            for f in 0..nf {
+                let lo = n * f / nf; let hi = n * (f + 1) / nf;
+                if lo == hi && f > 0 { continue; }
+                let batch = t.batch_of(&t.rows[lo..hi]);
+                let file = std::fs::File::create(d.join(format!("part-{:03}.parquet", f))).ok()?;
+                let props = parquet::file::properties::WriterProperties::builder().set_max_row_group_row_count(Some(rg.max(1))).build();
+                let mut w = parquet::arrow::ArrowWriter::try_new(file, t.schema(), Some(props)).ok()?;
+                w.write(&batch).ok()?;
+                w.close().ok()?;
+            }
+            let pt = query_engine::ParquetTable::try_new(&d).ok()?;
+            ctx.register_table_provider(t.name.clone(), std::sync::Arc::new(pt));
+        }
+        let plan = ctx.physical_plan(sql).ok()?;
+        fn walk(p: &dyn PhysicalOperator, out: &mut std::collections::BTreeSet<String>) { out.insert(p.name().to_string()); for c in p.children() { walk(c.as_ref(), out); } }
+        let mut names = std::collections::BTreeSet::new();
+        walk(plan.as_ref(), &mut names);
+        Some(names.into_iter().collect())
+    }));
+    let _ = std::fs::remove_dir_all(&dir);
+    res.ok().flatten().unwrap_or_default()
+}
+
 fn child_main() {
     let variant = std::env::var("IQE_C04_VARIANT").unwrap_or_else(|_| "d".into());
     let stdin = std::io::stdin();
@@ -61,7 +95,8 @@ fn child_main() {
         let mut runs = serde_json::Map::new();
         for cfg in &cfgs { runs.insert(format!("{}@{}", cfg.name, variant), canon(run(&cat, sql, cfg), ordered)); }
         let mut l = out.lock();
-        let _ = writeln!(l, "{}", json!({"runs": Value::Object(runs)}));
+        let ops = plan_ops(&cat, sql, files, rg);
+        let _ = writeln!(l, "{}", json!({"runs": Value::Object(runs), "ops": {variant.clone(): ops}}));
         let _ = l.flush();
     }
 }
@@ -77,13 +112,15 @@ fn spawn_all() -> Vec<Kid> {
 /// all variants of one case; `None` when an observation was lost (child died / too slow)
 fn run_case(kids: &mut Vec<Kid>, c: &Value, pre: Option<Value>) -> Option<Value> {
     let mut runs = serde_json::Map::new();
+    let mut ops = serde_json::Map::new();
     let mut pre = pre;
     for (i, k) in kids.iter_mut().enumerate() {
         let v = if i == 0 && pre.is_some() { pre.take().unwrap() } else { k.ask(c, 60) };
         if v.get("lost").is_some() { return None; }
         if let Some(m) = v["runs"].as_object() { for (a, b) in m { runs.insert(a.clone(), b.clone()); } }
+        if let Some(m) = v["ops"].as_object() { for (a, b) in m { ops.insert(a.clone(), b.clone()); } }
     }
-    Some(json!({"runs": Value::Object(runs)}))
+    Some(json!({"runs": Value::Object(runs), "ops": Value::Object(ops)}))
 }
 
 pub fn main(o: &Opts) {
